@@ -1,12 +1,188 @@
 import Tpp.Driver.Proto
-/-! Driver slice `Canvas`: model answers (`run`) and property oracle on the implementation's answers (`oracle`). -/
+import Tpp.Model.Canvas
+/-!
+Driver slice `Canvas` (property C16): model answers (`run`) and property oracle on the
+implementation's answers (`oracle`).
+
+## Protocol kind `C`  (executor side: `harness/exec_canvas.inc`)
+
+```
+C w h ; op ; op ; …
+```
+constructs `terminalpp::canvas{{w, h}}` and applies the ops in order (ops separated by `;`, words by
+blanks, numbers decimal, an `<element>` is the shared 16-number encoding of `Proto.rdElement`):
+
+| op                     | C++                                                           | answer segment            |
+|------------------------|---------------------------------------------------------------|---------------------------|
+| `px x y <element>`     | `cvs[x][y] = e`                                               | none (`?range` if outside) |
+| `gt x y` / `cgt x y`   | `cvs[x][y]` through the non-const / const `operator[]` proxies | `<element>`               |
+| `rz w h`               | `cvs.resize({w, h})`                                          | `w,h` = `size()` afterwards |
+| `it ox oy w h`         | `for_each_in_region(cvs, {{ox,oy},{w,h}}, f)`                  | `x,y=<element>` per call of `f`, joined by `/`; `none` when `f` is never called |
+| `cit ox oy w h`        | the same on `canvas const &` (const proxies, `element const &`) | as `it`                 |
+| `dump` / `cdump`       | `size()` and every element of `begin()..end()` (non-const / const overloads) | `w,h:` then the elements joined by `,` |
+
+The answer is the segments joined by ` ; ` (`-` when there is none).  `<element>` is printed with
+`show_element` / `showElement` (16 numbers separated by blanks, only the meaningful glyph bytes).
+The executor never makes an out-of-range access of its own: `px`/`gt` outside the canvas and `it`
+regions not contained in it answer `?range`, negative or huge sizes (`w*h > 2²⁰`) answer `?size`,
+unknown words `?op`; such ops change nothing.  These inputs are outside C16's domain.
+
+## Oracle
+
+`oracle` never calls `Canvas.get/set/resize/regionCoords`.  It keeps the *expected* contents as an
+abstract finite map `(x, y) ↦ element` (absent = default element) and the expected size, updated from
+the property statement alone: `px` binds one cell; `rz` keeps exactly the bindings inside both the old
+and the new extent and reports the new size; `dump` must list `w,h:` and `w*h` elements with cell
+`(k mod w, k div w)` at position `k`; `it` over a `w'×h'` region must make exactly `w'*h'` calls, the
+`k`-th with coordinates `(ox + k mod w', oy + k div w')` and the element bound to them.
+-/
 namespace Tpp.Driver.Canvas
 open Tpp Tpp.Driver
 
+inductive COp
+  | px (x y : Int) (e : Element)
+  | gt (x y : Int)
+  | rz (w h : Int)
+  | it (ox oy w h : Int)
+  | dump
+  | bad
+deriving Inhabited
+
+def rdCOp : Rd (Option COp) := do
+  let w ← Rd.word
+  match w with
+  | "" => return none
+  | "px" => do let x ← Rd.int; let y ← Rd.int; let e ← rdElement; return some (.px x y e)
+  | "gt" | "cgt" => do let x ← Rd.int; let y ← Rd.int; return some (.gt x y)
+  | "rz" => do let w ← Rd.int; let h ← Rd.int; return some (.rz w h)
+  | "it" | "cit" => do let ox ← Rd.int; let oy ← Rd.int; let w ← Rd.int; let h ← Rd.int; return some (.it ox oy w h)
+  | "dump" | "cdump" => return some .dump
+  | _ => return some .bad
+
+/-- `C w h ; op ; …` → initial size and ops -/
+def parse (rest : String) : Int × Int × List COp :=
+  match rest.splitOn ";" with
+  | [] => (0, 0, [])
+  | h :: ops =>
+    let ((w, hh), _) := (do let w ← Rd.int; let h ← Rd.int; return (w, h) : Rd (Int × Int)).run (words h)
+    (w, hh, ops.filterMap fun o => (rdCOp.run (words o)).1)
+
+def opName : COp → String
+  | .px x y _ => s!"px {x} {y}" | .gt x y => s!"gt {x} {y}" | .rz w h => s!"rz {w} {h}"
+  | .it ox oy w h => s!"it {ox} {oy} {w} {h}" | .dump => "dump" | .bad => "?"
+
+def sizeOk (w h : Int) : Bool := 0 ≤ w && 0 ≤ h && w ≤ 65536 && h ≤ 65536 && w * h ≤ 1048576
+def inside (s : Extent) (x y : Int) : Bool := 0 ≤ x && 0 ≤ y && x < s.width && y < s.height
+def regionInside (s : Extent) (ox oy w h : Int) : Bool :=
+  0 ≤ ox && 0 ≤ oy && 0 ≤ w && 0 ≤ h && ox + w ≤ s.width && oy + h ≤ s.height
+
+def showSize (s : Extent) : String := s!"{s.width},{s.height}"
+def showVisit (x y : Int) (e : Element) : String := s!"{x},{y}={showElement e}"
+def joinOr (empty sep : String) (xs : List String) : String := if xs.isEmpty then empty else sep.intercalate xs
+
+/-! ### model side -/
+
+/-- one op on the model canvas: new canvas and the answer segment (if any) -/
+def stepModel (c : Tpp.Canvas) : COp → Tpp.Canvas × Option String
+  | .px x y e => if inside c.size x y then (c.set x y e, none) else (c, some "?range")
+  | .gt x y => if inside c.size x y then (c, some (showElement (c.get x y))) else (c, some "?range")
+  | .rz w h => if sizeOk w h then let c' := c.resize ⟨w, h⟩; (c', some (showSize c'.size)) else (c, some "?size")
+  | .it ox oy w h =>
+    if regionInside c.size ox oy w h then
+      (c, some (joinOr "none" "/" ((c.visits ⟨⟨ox, oy⟩, ⟨w, h⟩⟩).map fun v => showVisit v.2.1 v.2.2 v.1)))
+    else (c, some "?range")
+  | .dump => (c, some (showSize c.size ++ ":" ++ ",".intercalate (c.grid.map showElement)))
+  | .bad => (c, some "?op")
+
+def runOps : Tpp.Canvas → List COp → List String
+  | _, [] => []
+  | c, op :: ops =>
+    let (c', seg) := stepModel c op
+    match seg with
+    | some s => s :: runOps c' ops
+    | none => runOps c' ops
+
 /-- model answer for a case line of this slice; `none` when the kind is not ours -/
-def run (_kind : Char) (_rest : String) : Option String := none
+def run (kind : Char) (rest : String) : Option String :=
+  if kind ≠ 'C' then none else
+  let (w, h, ops) := parse rest
+  if !sizeOk w h then some "?size" else
+  some (joinOr "-" " ; " (runOps (Tpp.Canvas.new ⟨w, h⟩) ops))
+
+/-! ### oracle side: expected behaviour from the property statement -/
+
+/-- expected state: the size, and the bound cells, most recent binding first; unbound = default -/
+structure Expect where
+  size : Extent
+  cells : List ((Int × Int) × Element)
+
+def Expect.lookup (s : Expect) (x y : Int) : Element :=
+  match s.cells.find? (fun b => b.1.1 == x && b.1.2 == y) with
+  | some b => b.2
+  | none => {}
+
+/-- expected answer segment and expected next state -/
+def stepExpect (s : Expect) : COp → Expect × Option String
+  | .px x y e =>
+    if inside s.size x y then ({ s with cells := ((x, y), e) :: s.cells }, none) else (s, some "?range")
+  | .gt x y => if inside s.size x y then (s, some (showElement (s.lookup x y))) else (s, some "?range")
+  | .rz w h =>
+    if sizeOk w h then
+      -- cells inside both the old and the new extent keep their element, every other cell is default
+      let n : Extent := ⟨w, h⟩
+      ({ size := n, cells := s.cells.filter fun b => inside s.size b.1.1 b.1.2 && inside n b.1.1 b.1.2 },
+       some (showSize n))
+    else (s, some "?size")
+  | .it ox oy w h =>
+    if regionInside s.size ox oy w h then
+      let n := w.toNat * h.toNat
+      let vs := (List.range n).map fun k =>
+        let x := ox + Int.ofNat (k % w.toNat)
+        let y := oy + Int.ofNat (k / w.toNat)
+        showVisit x y (s.lookup x y)
+      (s, some (joinOr "none" "/" vs))
+    else (s, some "?range")
+  | .dump =>
+    let w := s.size.width.toNat
+    let n := w * s.size.height.toNat
+    let es := (List.range n).map fun k => showElement (s.lookup (Int.ofNat (k % w)) (Int.ofNat (k / w)))
+    (s, some (showSize s.size ++ ":" ++ ",".intercalate es))
+  | .bad => (s, some "?op")
+
+/-- first differing item of two segments (items separated by `/` in visit lists, `,` in dumps) -/
+def firstDiff (e r : String) : String :=
+  let sep := if e.contains '=' || r.contains '=' then "/" else ","
+  let rec go (i : Nat) : List String → List String → String
+    | [], [] => "identical"
+    | a :: _, [] => s!"item#{i} expected '{a}' got nothing"
+    | [], b :: _ => s!"item#{i} expected nothing got '{b}'"
+    | a :: as, b :: bs => if a = b then go (i + 1) as bs else s!"item#{i} expected '{a}' got '{b}'"
+  let es := e.splitOn sep
+  let rs := r.splitOn sep
+  s!"{es.length} vs {rs.length} items, {go 0 es rs}"
+
+/-- walk ops and real segments together; first mismatch is reported -/
+def judge : Expect → Nat → List COp → List String → String
+  | _, _, [], [] => "ok"
+  | _, i, [], r :: _ => s!"FAIL C16 op#{i}: unexpected extra answer segment '{r.take 80}'"
+  | s, i, op :: ops, real =>
+    let (s', seg) := stepExpect s op
+    match seg with
+    | none => judge s' (i + 1) ops real
+    | some e =>
+      match real with
+      | [] => s!"FAIL C16 op#{i}: missing answer segment, expected '{e.take 200}'"
+      | r :: rs =>
+        if r = e then judge s' (i + 1) ops rs
+        else s!"FAIL C16 op#{i} ({opName op}): {firstDiff e r}"
 
 /-- oracle verdict (`ok` / `FAIL <ids> …`) given the case, the configuration prefix and the real answer -/
-def oracle (_kind : Char) (_cfg _rest _real : String) : Option String := none
+def oracle (kind : Char) (_cfg rest real : String) : Option String :=
+  if kind ≠ 'C' then none else
+  let (w, h, ops) := parse rest
+  if !sizeOk w h then some "ok" else
+  let r := real.trimAscii.toString
+  let segs := if r = "-" then [] else r.splitOn " ; "
+  some (judge { size := ⟨w, h⟩, cells := [] } 1 ops segs)
 
 end Tpp.Driver.Canvas
